@@ -130,3 +130,43 @@ def atmos(env):
             mo = p.model._var_allprocs_abs2meta["output"][src]
             env.holds("C17", "AtmosGroup wiring: %s and %s have the same units" % (tgt, src), mi["units"] == mo["units"],
                       "%s vs %s" % (mi["units"], mo["units"]))
+
+
+@job("c17.atmos_table", ("C17",))
+def atmos_table(env):
+    """mutual consistency of the five tabulated columns, decided exhaustively at the 112 table nodes (where the Akima
+    interpolants of the component reproduce the data) and sampled at the mid-points between nodes: speed of sound
+    a^2 == gamma R T, ideal gas P == rho R T (imperial units of the table: ft, degR, psi, slug/ft^3, ft/s), and pressure and
+    density strictly decreasing with altitude (no kink from a mistyped entry)"""
+    import openaerostruct.common.atmos_comp as A
+    d = A.USatm1976Data
+    alt = np.asarray(d.alt, dtype=float)
+    R, gam = 1716.49, 1.4                      # ft lbf / (slug degR), air
+    cols = dict(T=A.T_interp, P=A.P_interp, rho=A.rho_interp, a=A.a_interp)
+    env.functions.add("openaerostruct.common.atmos_comp (tables and interpolants)")
+
+    def relations(h):
+        T, P, rho, a = (float(np.asarray(cols[k](h)).reshape(-1)[0]) for k in ("T", "P", "rho", "a"))
+        return a * a / (gam * R * T) - 1, 144 * P / (rho * R * T) - 1
+
+    bad_a, bad_p = [], []
+    for h in alt:
+        ea, ep = relations(h)
+        if abs(ea) > 1e-3:
+            bad_a.append((h, round(ea, 5)))
+        if abs(ep) > 2e-3:
+            bad_p.append((h, round(ep, 5)))
+    env.holds("C17", "speed of sound: a^2 == gamma R T at every table node (0.1 %)", not bad_a, "altitude ft, relative error: %s" % bad_a[:4])
+    env.holds("C17", "ideal gas: P == rho R T at every table node (0.2 %)", not bad_p, "altitude ft, relative error: %s" % bad_p[:4])
+    mid = 0.5 * (alt[1:] + alt[:-1])
+    bm = [(h, round(e, 5)) for h in mid for e in relations(h) if abs(e) > 5e-3]
+    env.holds("C17", "speed of sound and ideal gas hold at the mid-points between nodes (0.5 %; sampled, interpolation error included)",
+              not bm, "altitude ft, relative error: %s" % bm[:4])
+    for nm in ("P", "rho"):
+        v = np.asarray(getattr(d, nm), dtype=float)
+        k = [float(alt[i + 1]) for i in range(len(v) - 1) if not v[i + 1] < v[i]]
+        env.holds("C17", "tabulated %s decreases strictly with altitude" % nm, not k, "not decreasing at %s ft" % k[:4])
+    node_ok = all(abs(float(np.asarray(cols[k](h)).reshape(-1)[0]) - float(np.asarray(getattr(d, k))[i])) <= 1e-9 * abs(float(np.asarray(getattr(d, k))[i]))
+                  for k in cols for i, h in enumerate(alt))
+    env.holds("C17", "the interpolants reproduce the table at its nodes", node_ok)
+    env.assumptions.add("atmosphere: consistency between table nodes is sampled at mid-points only (Akima interpolation of data)")
